@@ -732,6 +732,13 @@ func rootObj(info *types.Info, e ast.Expr) types.Object {
 			e = x.X
 		case *ast.UnaryExpr:
 			e = x.X
+		case *ast.CallExpr:
+			// x.f.Load() on an atomic pointer is a read of x.f
+			if se, ok := x.Fun.(*ast.SelectorExpr); ok && se.Sel.Name == "Load" && len(x.Args) == 0 {
+				e = se.X
+				continue
+			}
+			return nil
 		default:
 			return nil
 		}
